@@ -49,3 +49,28 @@ run rename_carried_newpred C07 '        p = Predicate(similar, arity)
             counter += 1
         self.predicates.add(cand)
         return cand' /tmp/mut/src/ngo/utils/globals.py
+# --- C15 / C14 / C12 units written later
+run inline_rename_local C15 '        replace_terms = [stm.weight, stm.priority] + list(stm.terms)=>        own_tuple = [stm.weight, stm.priority] + list(stm.terms)
+        replace_terms = own_tuple' /tmp/mut/src/ngo/inline.py
+run inline_reorder_guards C15 '        if agg.function == AggregateFunction.SumPlus and not self._nonnegative_weights(agg):
+            return [stm]
+        # an element without a tuple has no weight that could be moved
+        if any(map(lambda elem: not elem.terms, agg.elements)):
+            return [stm]=>        # an element without a tuple has no weight that could be moved
+        if any(map(lambda elem: not elem.terms, agg.elements)):
+            return [stm]
+        if agg.function == AggregateFunction.SumPlus and not self._nonnegative_weights(agg):
+            return [stm]' /tmp/mut/src/ngo/inline.py
+run inline_log_line C15 '            rest_elems = [elem for elem in atom.elements if elem != replace_elem]=>            log.debug("checking the other elements")
+            rest_elems = [elem for elem in atom.elements if elem != replace_elem]' /tmp/mut/src/ngo/inline.py
+run inline_rename_loopvar C15 '        for elem in atom.elements:
+            if elem != replace_elem:
+                max_arity = max(max_arity, len(elem.terms))=>        for other in atom.elements:
+            if other != replace_elem:
+                max_arity = max(max_arity, len(other.terms))' /tmp/mut/src/ngo/inline.py
+run to_sympy_helper C14 '        if neg and agg.right_guard:  # don=>        two_sided_negation = neg and agg.right_guard
+        if two_sided_negation:  # don' /tmp/mut/src/ngo/math_simplification.py
+run minmax_helper C12 '        if agg.sign != Sign.NoSign:
+            return [rule]  # the chain=>        negated = agg.sign != Sign.NoSign
+        if negated:
+            return [rule]  # the chain' /tmp/mut/src/ngo/minmax_aggregates.py
